@@ -1,5 +1,5 @@
 CONSTANT Polys = {13, 37, 61}
-CONSTANT AMax = 31
+CONSTANT AMax = 7
 CONSTANT Tags = {0, 2, 3, 4, 5, 255}
 CONSTANT Extra = {255}
 SPECIFICATION Spec
